@@ -77,6 +77,15 @@ def check_filter(ctx, rule, fq, spec, what, attrs=None, which=None,
     fl = [x for x in _filters(f.node) if norm(x[2]) == source]
     if which is not None:
         fl = [x for x in fl if which(x)]
+    if not fl and which is None and any(
+            isinstance(x, ast.Attribute) and norm(x) == source
+            for x in own_nodes(f.node)):
+        # the collection is used unfiltered: every execution is selected
+        rule.fail(ctx.construct(f, extra=what),
+                  '%s: the executions are used without the filter that '
+                  'selects them (every execution counts, also the old '
+                  'failed ones of a partial rerun)' % what, ctx.loc(f))
+        return None
     if len(fl) != 1:
         raise AnalysisError('%s: execution filter not found (%d)'
                             % (fq, len(fl)))
@@ -108,6 +117,39 @@ def with_items_predicates(ctx, rule):
     check_filter(ctx, rule, WIT + '._has_more_iterations',
                  lambda s, a: a or s not in DONE,
                  'items accepted or in flight')
+    # the items a partial rerun starts again: failed and not accepted, minus
+    # the ones that succeeded meanwhile, minus the ones whose re-run is in
+    # progress right now (F30: the old failed execution stays unaccepted)
+    ni = ctx.prog.func(WIT + '._get_next_indexes')
+    inprog = check_filter(ctx, rule, WIT + '._get_next_indexes',
+                          lambda s, a: s not in DONE,
+                          'items in progress', attrs=None,
+                          which=lambda x: True)
+    cand = [x for x in own_nodes(ni.node) if isinstance(x, ast.Assign) and
+            isinstance(x.targets[0], ast.Name) and
+            x.targets[0].id == 'candidates']
+    okc = len(cand) == 1 and inprog is not None
+    if okc:
+        defs = U._single_defs(ni.node)
+        subs = []
+        for b in ast.walk(cand[0].value):
+            if isinstance(b, ast.BinOp) and isinstance(b.op, ast.Sub):
+                subs.append(b.right)
+        srcs = []
+        for e in subs:
+            for nm in [y.id for y in ast.walk(e) if isinstance(y, ast.Name)]:
+                if nm in defs:
+                    srcs.append(defs[nm])
+        okc = any(any(y is inprog for y in ast.walk(d)) for d in srcs) and \
+            any('_get_accepted_executions' in norm(d, 200) for d in srcs) \
+            and 'unaccepted' in norm(U.canon_expr(ni.node, cand[0].value),
+                                     400)
+    rule.check(okc, ctx.construct(ni, extra='candidates exclude items in '
+                                  'progress'),
+               'the items to start again are not "failed and unaccepted, '
+               'minus accepted, minus those with an execution in progress": '
+               'an item whose re-run is running is started once more',
+               ctx.loc(ni))
     check_filter(ctx, rule, WIT + '._get_unaccepted_executions',
                  lambda s, a: (not a) and s in DONE, 'items to re-run')
     check_filter(ctx, rule, WIT + '._get_accepted_executions',
